@@ -136,13 +136,16 @@ pub fn render_cel(sp: &Sprite, f: u16, l: u16) -> Img {
 }
 
 pub fn tile_image(sp: &Sprite, ts: &TilesetM, i: u32) -> Img {
-    let px = to_rgba(sp, &ts.pixels, false);
     let (tw, th) = (ts.tw as u32, ts.th as u32);
+    let bpp = sp.fmt.bpp();
+    let n = (tw * th) as usize;
+    let base = i as usize * n;
+    // convert only this tile's bytes
+    let px = to_rgba(sp, &ts.pixels[base * bpp..(base + n) * bpp], false);
     let mut img = Img::new(tw, th);
     img.loose = false;
-    let base = (i * tw * th) as usize;
-    for k in 0..(tw * th) as usize {
-        img.px[k * 4..k * 4 + 4].copy_from_slice(&px[base + k]);
+    for k in 0..n {
+        img.px[k * 4..k * 4 + 4].copy_from_slice(&px[k]);
     }
     img
 }
